@@ -60,6 +60,15 @@ def cases(tier: str, seed: int) -> list[dict]:
                         'cell': {'mode': 'race', 'direct': 'fast', 'indirect': 'pierce-fast', 'cancel': None, 'typ': typ,
                                  'same_instant': True, 'rendezvous': 'pierce-waits-for-direct-connect', 'd_yields': 0,
                                  'i_yields': j, 'ports': 'clear', 'prefer_obf': False}})
+    # the peer pierces twice with the same ticket in the same virtual instant (the second message is handled in the
+    # loop step in which the first one completed the waiter, before the waiter has been removed)
+    for typ in ('P', 'D', 'F'):
+        for mode in ('race', 'fallback'):
+            for j in range(0, 6):
+                out.append({'kind': 'request', 'seed': seed, 'n': len(out),
+                            'cell': {'mode': mode, 'direct': 'refused', 'indirect': 'pierce-fast', 'cancel': None, 'typ': typ,
+                                     'same_instant': True, 'i_yields': j, 'd_yields': 0, 'ports': 'clear', 'prefer_obf': False,
+                                     'dup_pierce': 0.0, 'my_listen': 'both', 'pierce_init_delay': 0.0}})
     n_rand = 4000 if tier == 'quick' else 150000
     for _ in range(n_rand):
         out.append({'kind': 'request', 'seed': seed, 'n': len(out), 'cell': None})
